@@ -203,4 +203,64 @@ PROPS = {
             "string concatenation is kept in canonical right-nested form (associativity and the empty unit hold syntactically)",
         ],
     },
+    "C11": {
+        "category": "other",
+        "harness_modes": ["crosscheck"],
+        "contract_module": "C11",
+        "explanation": "Fragment. With a ghost flag `reserved` per job allocation (set when _allocate_job charges the job, cleared by _free_resources, both assumed), "
+        "DefaultScheduler.notify_status is proved, for every previous/new status pair of the engine's protocol and every allocation table: the new status is recorded and no "
+        "other job's allocation is touched; _free_resources is called only on a reservation that exists (its precondition is an obligation at the call site) and at most once "
+        "per notification; afterwards the job's hardware is reserved exactly if the job is FIREABLE or RUNNING; the scheduler's condition variable is notified exactly once, "
+        "while its lock is held, whenever the allocation exists (no status change without a wake-up); a rolled-back job leaves its locations. The same clause without the "
+        "protocol restriction is REFUTED (recorded finding KF-C11-out-of-order-notifications). NOT decided by proof: _allocate_job / _free_resources / _is_valid / "
+        "_process_target themselves (the amounts charged per stacked level, capacity checks, placement) — they are exercised by the bounded run-time histories on the real "
+        "scheduler only (capacity never exceeded, reserved == sum over fireable and running jobs, a fitting request does not stay waiting)."
+        "",
+        "assumptions": [
+            "assumed contracts: DefaultScheduler._free_resources (requires a reservation, clears it), Condition.notify_all (requires the lock), get_connector",
+            "A-ASYNCIO cooperative scheduling: the body of `async with self.wait_queue` runs with the lock held",
+            "job allocations of different job names are different objects",
+        ],
+    },
+    "C12": {
+        "category": "other",
+        "harness_modes": ["crosscheck"],
+        "contract_module": "C11",
+        "ignore_known_clauses": True,
+        "explanation": "Fragment. With a ghost flag `reserved` per job allocation (set when _allocate_job charges the job, cleared by _free_resources, both assumed), "
+        "DefaultScheduler.notify_status is proved, for every previous/new status pair of the engine's protocol and every allocation table: the new status is recorded and no "
+        "other job's allocation is touched; _free_resources is called only on a reservation that exists (its precondition is an obligation at the call site) and at most once "
+        "per notification; afterwards the job's hardware is reserved exactly if the job is FIREABLE or RUNNING; the scheduler's condition variable is notified exactly once, "
+        "while its lock is held, whenever the allocation exists (no status change without a wake-up); a rolled-back job leaves its locations. The same clause without the "
+        "protocol restriction is REFUTED (recorded finding KF-C11-out-of-order-notifications). NOT decided by proof: _allocate_job / _free_resources / _is_valid / "
+        "_process_target themselves (the amounts charged per stacked level, capacity checks, placement) — they are exercised by the bounded run-time histories on the real "
+        "scheduler only (capacity never exceeded, reserved == sum over fireable and running jobs, a fitting request does not stay waiting)."
+        "C12 itself (a fitting request is EVENTUALLY granted) is a liveness property; only the safety half above is decided.",
+        "assumptions": [
+            "assumed contracts: DefaultScheduler._free_resources (requires a reservation, clears it), Condition.notify_all (requires the lock), get_connector",
+            "A-ASYNCIO cooperative scheduling: the body of `async with self.wait_queue` runs with the lock held",
+            "job allocations of different job names are different objects",
+        ],
+    },
+    "C10": {
+        "category": "other",
+        "harness_modes": ["crosscheck"],
+        "contract_module": "C11",
+        "depends": [("C14", ["Hardware.satisfies", "Hardware.__sub__", "Hardware.__add__", "Hardware.normalized", "Hardware._normalize_storage", "_reduce_storages"])],
+        "ignore_known_clauses": True,
+        "explanation": "Fragment. With a ghost flag `reserved` per job allocation (set when _allocate_job charges the job, cleared by _free_resources, both assumed), "
+        "DefaultScheduler.notify_status is proved, for every previous/new status pair of the engine's protocol and every allocation table: the new status is recorded and no "
+        "other job's allocation is touched; _free_resources is called only on a reservation that exists (its precondition is an obligation at the call site) and at most once "
+        "per notification; afterwards the job's hardware is reserved exactly if the job is FIREABLE or RUNNING; the scheduler's condition variable is notified exactly once, "
+        "while its lock is held, whenever the allocation exists (no status change without a wake-up); a rolled-back job leaves its locations. The same clause without the "
+        "protocol restriction is REFUTED (recorded finding KF-C11-out-of-order-notifications). NOT decided by proof: _allocate_job / _free_resources / _is_valid / "
+        "_process_target themselves (the amounts charged per stacked level, capacity checks, placement) — they are exercised by the bounded run-time histories on the real "
+        "scheduler only (capacity never exceeded, reserved == sum over fireable and running jobs, a fitting request does not stay waiting)."
+        "For C10 the proof contributes only the release side (nothing is released that was not reserved, so reservations never go negative and capacity checks see true usage); the capacity clause itself is bounded-only.",
+        "assumptions": [
+            "assumed contracts: DefaultScheduler._free_resources (requires a reservation, clears it), Condition.notify_all (requires the lock), get_connector",
+            "A-ASYNCIO cooperative scheduling: the body of `async with self.wait_queue` runs with the lock held",
+            "job allocations of different job names are different objects",
+        ],
+    },
 }
